@@ -254,6 +254,8 @@ class CFG:
                     results.append((c2, p2, "back"))
                 elif b not in body:
                     kind = self.nodes[b].kind
+                    if kind == "raise":  # an explicit `raise` statement leaves like an assert's failing edge
+                        kind = "exit:raise"
                     results.append((c2, p2, "leave:" + kind))
                 elif b in seen:
                     continue  # inner loop back edge
